@@ -357,6 +357,8 @@ func main() {
 		{{false, 0x1004, 4, 1, false}, {true, 0x1008, 4, 1, false}, {false, 0x1c10, 8, 2, false}},                              // same page+PID coalesce; same page other PID
 		{{true, 0x1ffc, 4, 1, true}, {false, 0x2fc0, 64, 1, false}, {false, 0x2840, 4, 2, false}},                              // page end / next page
 		{{false, 0x1020, 4, 2, false}, {false, 0x2024, 4, 2, false}, {true, 0x1028, 8, 2, true}, {false, 0x1030, 4, 1, false}}, // interleaved pages, return to first
+		// accesses that run past the end of their page (valid: size, data and mask must leave unchanged; only the start address is translated)
+		{{false, 0x1fe0, 64, 1, false}, {true, 0x2fff, 4, 2, true}, {true, 0x1ffe, 4, 1, false}, {false, 0x1ff9, 8, 1, false}},
 	}
 	long := []reqSpec{{false, 0x1004, 4, 1, false}, {true, 0x1008, 4, 1, false}, {false, 0x100c, 8, 2, false}, {true, 0x2010, 8, 1, true}, {false, 0x1018, 16, 1, false}}
 	post := []reqSpec{{false, 0x1044, 4, 1, false}, {true, 0x2048, 4, 2, true}}
